@@ -312,3 +312,188 @@ Example C13_parse_print_escapes_nonvacuous :
   /\ noesc_json (JObj [("likes", JStr "?x")]) = true
   /\ print_esc (JObj [("likes", JStr "?x")]) = "{""likes"":""?x""}".
 Proof. repeat split; vm_compute; reflexivity. Qed.
+
+(** * Text versus inline, with string escapes
+    (Model/CompileEsc.v: Spec.Compile over the text model with escapes.
+    [compile_esc] is [compile] with [parse_esc] for [parse] in
+    DefaultPatternParser, [with_text_esc] is [with_text] with [print_esc] for
+    [print]; everything else is shared with Model/Compile.v.
+    [ascii_doc a]: every string inside the patterns of [a] is made of bytes
+    below 128 - quotes, backslashes, control characters, [<], [>], [&]
+    included.) *)
+From Sheens Require Import Model.CompileEsc Proofs.CompileEscProofs.
+
+(** whichever patterns are written as JSON text, and whatever characters
+    their strings contain, Compile produces the very same Spec value as for
+    the inline form (or the same error) *)
+Theorem C13_text_inline_escapes :
+  forall I force sel a,
+    covers_strings sel -> ascii_doc a ->
+    compile_esc I force (with_text_esc sel a) = compile_esc I force (with_inline a).
+Proof. exact compile_esc_text_inline. Qed.
+Print Assumptions C13_text_inline_escapes.
+
+(** ... hence machines that behave identically on every message sequence *)
+Theorem C13_text_inline_behaviour_escapes :
+  forall I force sel a,
+    covers_strings sel -> ascii_doc a ->
+    match compile_esc I force (with_text_esc sel a), compile_esc I force (with_inline a) with
+    | inr x, inr y =>
+        forall bp limit st msgs, doc_walk x bp limit st msgs = doc_walk y bp limit st msgs
+    | inl e, inl e' => e = e'
+    | _, _ => False
+    end.
+Proof. exact text_inline_behaviour_esc. Qed.
+Print Assumptions C13_text_inline_behaviour_escapes.
+
+(** in the model the side condition is not needed (the decoder inverts the
+    encoder on every byte string); [ascii_doc] is what ties the model to Go *)
+Theorem C13_text_inline_escapes_bytes :
+  forall I force sel a,
+    covers_strings sel ->
+    compile_esc I force (with_text_esc sel a) = compile_esc I force (with_inline a).
+Proof. exact compile_esc_text_inline_bytes. Qed.
+Print Assumptions C13_text_inline_escapes_bytes.
+
+(** the inline form does not go through the text model at all: the text
+    form with escapes compiles to what [compile] makes of the inline form *)
+Theorem C13_text_escapes_inline_compile :
+  forall I force sel a,
+    covers_strings sel -> ascii_doc a ->
+    compile_esc I force (with_text_esc sel a) = compile I force (with_inline a).
+Proof. exact compile_esc_text_is_compile_inline. Qed.
+Print Assumptions C13_text_escapes_inline_compile.
+
+(** conservativity: Compile over the model with escapes agrees with Compile
+    over the model without them unless the latter rejects a pattern text;
+    in particular whatever compiles, compiles to the same Spec value.  On
+    the documents of [C13_text_inline] - plain patterns, written as text by
+    either printer - the two agree.  Documents that do not declare the json
+    syntax do not use the text model. *)
+Theorem C13_compile_esc_conservative :
+  (forall I force a,
+      compile I force a <> inl CPattern -> compile_esc I force a = compile I force a)
+  /\ (forall I force a a', compile I force a = inr a' -> compile_esc I force a = inr a')
+  /\ (forall I force sel a,
+        covers_strings sel -> plain_doc a ->
+        compile_esc I force (with_text sel a) = compile I force (with_text sel a)
+        /\ compile_esc I force (with_text_esc sel a) = compile I force (with_text sel a))
+  /\ (forall sel a, noesc_doc a -> with_text_esc sel a = with_text sel a)
+  /\ (forall I force a,
+        String.eqb (ad_syntax a) "json" = false -> compile_esc I force a = compile I force a).
+Proof.
+  exact (conj compile_esc_conservative
+        (conj compile_esc_of_compile
+        (conj (fun I force sel a Hs Hp =>
+                 conj (compile_esc_with_text_plain I force sel a Hs Hp)
+                      (compile_esc_text_plain I force sel a Hs Hp))
+        (conj with_text_esc_noesc
+              (compile_with_not_json parse_esc))))).
+Qed.
+Print Assumptions C13_compile_esc_conservative.
+
+(** the other direction: every Spec value [compile_esc] returns is what
+    [compile] returns for the document with its pattern texts read and
+    written inline ([preparsed]), which is pristine if the document is; so
+    the theorems about compiled values above hold of it *)
+Theorem C13_compile_esc_is_a_compile :
+  forall I force a a',
+    compile_esc I force a = inr a' ->
+    compile I force (preparsed parse_esc a) = inr a'
+    /\ (pristine a -> pristine (preparsed parse_esc a)).
+Proof.
+  exact (fun I force a a' H =>
+           conj (compile_with_as_compile parse_esc I force a a' H) (pristine_preparsed parse_esc a)).
+Qed.
+Print Assumptions C13_compile_esc_is_a_compile.
+
+Theorem C13_idempotent_escapes :
+  forall I force a a', compile_esc I force a = inr a' -> compile_esc I false a' = inr a'.
+Proof. exact compile_esc_idempotent. Qed.
+Print Assumptions C13_idempotent_escapes.
+
+Theorem C13_idempotent_forced_escapes :
+  forall I force2 a a', compile_esc I true a = inr a' -> compile_esc I force2 a' = inr a'.
+Proof. exact compile_esc_idempotent_forced. Qed.
+Print Assumptions C13_idempotent_forced_escapes.
+
+Theorem C13_idempotent_loaded_escapes :
+  forall I force force2 a a',
+    pristine a -> compile_esc I force a = inr a' -> compile_esc I force2 a' = inr a'.
+Proof. exact compile_esc_idempotent_pristine. Qed.
+Print Assumptions C13_idempotent_loaded_escapes.
+
+Theorem C13_reload_escapes :
+  forall I force force2 a a',
+    pristine a -> compile_esc I force a = inr a' -> compile_esc I force2 (reload a') = inr a'.
+Proof. exact compile_esc_reload. Qed.
+Print Assumptions C13_reload_escapes.
+
+Theorem C13_no_late_errors_escapes :
+  forall I force a a',
+    compile_esc I force a = inr a' ->
+    forall st pending e, so_err (doc_step a' st pending) = Some e ->
+    e <> ENotCompiled /\ e <> EUncompiledAction.
+Proof. exact compiled_esc_no_late_errors. Qed.
+Print Assumptions C13_no_late_errors_escapes.
+
+Theorem C13_types_known_escapes :
+  forall I force a a' name nd bg,
+    compile_esc I force a = inr a' ->
+    find_node name (sp_nodes (spec_of a')) = Some nd -> nd_branching nd = Some bg ->
+    bg_type bg = "message" \/ bg_type bg = "bindings".
+Proof. exact compiled_esc_types_known. Qed.
+Print Assumptions C13_types_known_escapes.
+
+(** non-vacuity: a key and a bare string pattern with a quote, a backslash,
+    a newline, [<], [>], [&].  The document is ASCII and not plain; the
+    texts are the ones Go writes; the model without escapes rejects its own
+    text; over the model with escapes it compiles, to the inline patterns,
+    and the machine moves on messages that contain those characters *)
+Definition ex_esc_doc : adoc :=
+  mk_adoc
+    [("start", Some (mk_dnode None None
+                (Some (mk_dbranching "message"
+                   [Some (mk_dbranch (JObj [(ex_esc_string, JStr "?x")]) None
+                                     (Some (mk_asource "ecmascript" (SProg prog_keep))) "there");
+                    Some (mk_dbranch (JStr ex_esc_string) None None "there")]))));
+     ("there", Some (mk_dnode None (Some (mk_asource "ecmascript" (SProg prog_emit)))
+                (Some (mk_dbranching "" [Some (mk_dbranch JNull None None "start")]))))]
+    "" "" false false "" None None None None false.
+
+Example C13_text_inline_escapes_nonvacuous :
+  covers_strings all_text /\ ascii_doc ex_esc_doc
+  /\ forallb plain_json (doc_patterns ex_esc_doc) = false
+  /\ doc_patterns (with_text_esc all_text ex_esc_doc)
+     = [JStr "{""say \""hi\"" \\ \u003cb\u003e\n\u0026"":""?x""}";
+        JStr """say \""hi\"" \\ \u003cb\u003e\n\u0026"""; JStr "null"]
+  /\ compile ex_interps true (with_text all_text ex_esc_doc) = inl CPattern
+  /\ match compile_esc ex_interps true (with_text_esc all_text ex_esc_doc) with
+     | inr a' =>
+         doc_patterns a' = [JObj [(ex_esc_string, JStr "?x")]; JStr ex_esc_string; JNull]
+         /\ map (fun sd => option_map st_node (sd_to sd))
+                (w_strides (fst (doc_walk a' (fun _ => false) 4 (mk_state "start" (Some []))
+                                          [JObj [(ex_esc_string, JStr "tacos")]; JStr ex_esc_string])))
+            = [Some "there"; Some "start"; Some "there"; Some "start"]
+         /\ compile_esc ex_interps false (reload a') = inr a'
+     | inl _ => False
+     end.
+Proof.
+  split; [intros s; reflexivity |]. split; [apply ascii_doc_of_bool; vm_compute; reflexivity |].
+  repeat split; vm_compute; reflexivity.
+Qed.
+
+(** the extension is proper: a pattern text with an escape that only a
+    person writes ([\/]) is rejected over the model without escapes *)
+Example C13_compile_esc_reads_more :
+  let a := with_syntax "json"
+             (set_nodes (mk_adoc [] "" "" false false "" None None None None false)
+                [("start", Some (mk_dnode None None
+                    (Some (mk_dbranching "message"
+                       [Some (mk_dbranch (JStr """A\/""") None None "start")]))))]) in
+  compile (fun _ => None) true a = inl CPattern
+  /\ match compile_esc (fun _ => None) true a with
+     | inr a' => doc_patterns a' = [JStr "A/"]
+     | inl _ => False
+     end.
+Proof. exact compile_esc_reads_more. Qed.
